@@ -111,6 +111,10 @@ impl Packer {
         if &fimg.file_system != super::FS_NAME {
             return Err(Box::new(Error::FileTypeMismatch));
         }
+        if fimg.fs_type.len()==0 {
+            log::error!("file image has no file type");
+            return Err(Box::new(Error::FileTypeMismatch));
+        }
         Ok(())
     }
 }
